@@ -1019,7 +1019,8 @@ impl Simulator {
         let addr = addr_word.get_if_init(self.flags.strict, SimErr::StrictJmpAddrUninit)?;
         if self.flags.strict && st_check_mem {
             // Check next memory value is initialized:
-            if !self.read_mem(addr, self.default_mem_ctx())?.is_init() {
+            // (peek at the word directly: no privilege check, IO side effect or access tracking)
+            if !self.mem[addr].is_init() {
                 return Err(SimErr::StrictPCNextUninit);
             }
         }
